@@ -13,11 +13,13 @@ CHECKS = {
             'resolvable message: story IDs after the merge = protocol specification written without index arithmetic) and '
             'C01_moves_swaps_conserve (moves/swaps permute roCreate children or leave them untouched, no hypothesis), proved by '
             'induction over child lists in Coq; correspondence: extracted model vs /repo on exhaustive small running orders x '
-            'all story-level messages and on random histories; on a break the extracted proto_story oracle finds the failing input.',
+            'all story-level messages and on random histories; on a break the extracted proto_story oracle finds the failing input. '
+            'The hypothesis of unique story IDs is itself an invariant: C01_unique_ids_preserved / _along_histories (fresh payloads), C01_item_ops_keep_story_ids.',
             'section 5 C01', 'Coq theorems on a Gallina model + extracted-model differential run'),
     'C02': ('proof', 'Theorems C02_item_order (9 item-level classes: item IDs of the addressed story = protocol; every other child '
             'of roCreate untouched) and C02_moves_swaps_conserve, proved in Coq; correspondence run on stories with 0..n items, '
-            'paragraph layouts, repeated item IDs across stories, random histories.',
+            'paragraph layouts, repeated item IDs across stories, moves of 3-5 sources straddling the target, padded IDs, random histories. '
+            'C02_unique_item_ids_preserved / _everywhere: unique item IDs per story is an invariant under executable freshness conditions.',
             'section 5 C02', 'Coq theorems on a Gallina model + extracted-model differential run'),
     'C05': ('proof', 'Theorems C05_failed_merge_is_identity / C05_any_running_order: for every document with a roCreate element, every class and every message with an '
             'integer messageID, if ro + m raises the document is unchanged (the model carries the state at the point of failure, so '
@@ -46,7 +48,8 @@ CHECKS = {
     'C12': ('proof', 'Theorems C12_classify, C12_merge (all 25 classes: outcome is success, MosMergeError or MosCompletedMergeError under '
             'schema_ok, timing_ok, for any document with a roCreate: C12_any_running_order; the model contains the built-in exception paths) and C12_nonstrict_terminates, proved in Coq. '
             'Correspondence: all classes x blank/unknown/repeated/self-referential IDs x '
-            'running orders with/without timing metadata x histories, plus histories merged into one live RunningOrder object.',
+            'running orders with/without timing metadata x histories, plus histories merged into one live RunningOrder object. '
+            'C12_timing_preserved / C12_nonstrict_terminates_on_inputs: the timing guard is an invariant, so the collection theorem needs conditions on its inputs only.',
             'section 5 C12', 'Coq theorems on a Gallina model + extracted-model differential run'),
     'C03': ('proof', 'Theorems C03_frame_story_ops (every child of roCreate that the message neither names nor carries keeps identical '
             'content and relative order, all 11 story-level classes; no ID hypothesis for the 8 non-move classes), '
@@ -90,11 +93,11 @@ CHECKS = {
             'as a concatenation per file - for any list), C19_detect_status, C19_merge_output on the command functions. PARTIAL: '
             'argparse, the file system and the exit status are glue covered by running mosromgr.cli.main in a subprocess.',
             'section 5 C19', 'Coq theorems on the command-function model + differential CLI runs in a subprocess'),
-    'C13': ('proof', 'Theorems C13_frame, C13_copy_fresh, C13_discipline (for any disciplined sequence of store primitives the message\'s '
+    'C13': ('proof', 'Theorems C13_frame, C13_copy_fresh, C13_copy_same_content (a deep copy denotes exactly the copied tree, the source keeps its content), C13_discipline (for any disciplined sequence of store primitives the message\'s '
             'locations stay closed, disjoint from the running order\'s region, and denote the same trees - this merge, later merges, '
             'other running orders), C13_sharing_refuted / C13_copy_example in a store model of ElementTree nodes. PARTIAL: adherence '
             'of the 24 merges to the discipline is checked statically (ast of every insert / append / replace call site) and by '
-            'reuse histories on the real code; the merges are not re-modelled over the store.',
+            'reuse histories on the real code (what the message reports through its public properties, node sharing with the running order); the merges are not re-modelled over the store.',
             'section 5 C13', 'Coq theorems on a store (heap) model + static call-site extraction + object-reuse histories'),
     'C14': ('proof', 'Theorems C14_codec_roundtrip (parse (serialise t) = t for every well-formed tree: nested induction, escaping lemmas), '
             'C14_wf_reachable and C14_reachable_roundtrip (the fragment is an invariant of every history), C14_envelope, '
